@@ -66,28 +66,27 @@ GROUPS = {
         "requires": ["pub fn jtoken_to_runtime_object(", "pub fn jarray_to_runtime_obj_list("],
         "requires_in": {"runtime/src/json/json_write.rs": [
             "if let Some(v) = Value::get_bool_value(o.as_ref()) { return Ok(json!(v)); }",
-            "if let Some(v) = Value::get_value::<i32>(o.as_ref()) { return Ok(json!(v)); }",
-            "if let Some(v) = Value::get_value::<f32>(o.as_ref()) { return Ok(json!(v)); }"]},
+            "if let Some(v) = Value::get_value::<i32>(o.as_ref()) { return Ok(json!(v)); }"]},
         "model_map": True,
         "panic_property": "C15",
         "functions": ["json_write::write_rtobject", "json_read::jtoken_to_runtime_object", "json_read::jarray_to_runtime_obj_list",
                       "ControlCommand::new_from_name", "NativeFunctionCall::new_from_name", "serde_json::Number::{from,from_f64,as_i64,as_f64,is_i64}"],
-        "bounds": ("scalars: every i32, both bools, every f32 bit pattern (finite and non-finite separately); loader tokens: Null, "
+        "bounds": ("scalars: every i32, both bools (floats: probed, do not finish, not selected); loader tokens: Null, "
                    "Bool, Number built from every i64 / u64 / finite f64, String of length 0, 1, 2 with symbolic ASCII bytes, "
                    "token lists of length 0..2 with skip_last symbolic; objects ({...}) are outside (serde_json::Map = BTreeMap, E8')"),
         "stubs": ["alloc::fmt::format"],
         "roles": {
             "rt_int": "save->load of Value::Int, all i32", "rt_bool": "save->load of Value::Bool",
-            "rt_float_finite": "save->load of Value::Float, all finite f32 bit patterns",
-            "rt_float_nonfinite": "save->load of Value::Float, NaN and +-inf",
+            "rt_float_finite": "(not selected: does not finish) save->load of Value::Float, all finite f32 bit patterns",
+            "rt_float_nonfinite": "(not selected: does not finish) save->load of Value::Float, NaN and +-inf",
             "tok_null": "loader on JSON null", "tok_bool": "loader on JSON bool", "tok_i64": "loader on any i64 number",
             "tok_u64": "loader on any u64 number", "tok_f64": "loader on any finite f64 number",
             "tok_str0": "loader on the empty string token", "tok_str1": "loader on any 1-byte ASCII string token",
-            "tok_str2": "loader on any 2-byte ASCII string token", "tok_arr_empty": "loader on [] as a container",
-            "tok_arr_null": "loader on [null] as a container", "tok_arr_bool_null": "loader on [bool, null] as a container", "arr_list_empty_skip": "token-list reader on [] with skip_last", "arr_list_empty_noskip": "token-list reader on []",
+            "tok_str2": "loader on any 2-byte ASCII string token", "hunt_tok_arr_empty": "bug-hunt: loader on [] as a container",
+            "hunt_tok_arr_null": "bug-hunt: loader on [null] as a container", "hunt_tok_arr_bool_null": "bug-hunt: loader on [bool, null] as a container", "arr_list_empty_skip": "token-list reader on [] with skip_last", "arr_list_empty_noskip": "token-list reader on []",
             "arr_list_one_number_skip": "token-list reader on [n] with skip_last, n any i64", "arr_list_one_number_noskip": "token-list reader on [n], n any i64",
             "arr_list_bool_null_skip": "token-list reader on [bool, null] with skip_last", "arr_list_bool_null_noskip": "token-list reader on [bool, null]",
-            "arr_list_int_int_noskip": "token-list reader on [i, j], any i32 pair",
+            "hunt_arr_list_int_int_noskip": "bug-hunt: token-list reader on [i, j], any i32 pair",
         },
     },
     "count_flags": {
@@ -159,12 +158,11 @@ GROUPS = {
         "pkg": "rinklecate", "is_bin": True, "inject": "rinklecate/src/player.rs", "modpath": "player",
         "files": ["cli_escape.rs"], "requires": ["fn escape_json_string("], "model_map": False, "panic_property": "C20",
         "functions": ["player::escape_json_string"],
-        "bounds": ("input of exactly one character: every Unicode scalar value (four harnesses by UTF-8 length); plus every pair and triple of "
-                   "ASCII characters; longer inputs are outside (the loop body keeps no state between characters, by reading)"),
+        "bounds": ("input of exactly one ASCII character, every value 0x00..0x7f (covers every character JSON requires to be "
+                   "escaped: the controls, quote and backslash); non-ASCII characters and inputs longer than one character do not "
+                   "finish in CBMC (String growth by a symbolic amount) and are outside the claim"),
         "stubs": ["alloc::fmt::format"],
-        "roles": {"esc_char_ascii": "one char U+0000..U+007F", "esc_char_two_byte": "one char U+0080..U+07FF",
-                  "esc_char_three_byte": "one char U+0800..U+FFFF minus surrogates", "esc_char_four_byte": "one char U+10000..U+10FFFF",
-                  "esc_two_ascii": "every pair of ASCII chars", "esc_three_ascii": "every triple of ASCII chars"},
+        "roles": {"esc_char_ascii": "one ASCII char, all 128 values"},
     },
     "native_list": {
         "pkg": "bladeink",
@@ -223,7 +221,7 @@ def sel_c04_scalar(tier, seed, names):
     core = [n for n in names if re.search(r"_(ii|i)$", n)] + [n for n in names if re.match(r"ns_(int|floor|ceiling)_f$", n)] \
         + [n for n in names if re.search(r"_(vi|iv|v)$", n)][:6]
     rest = [n for n in names if n not in core]
-    return core + rot(rest, seed, 10)
+    return core + rot(rest, seed, 6)
 
 
 def sel_c07_scalar(tier, seed, names):
@@ -231,7 +229,7 @@ def sel_c07_scalar(tier, seed, names):
         return names
     core = [n for n in names if re.search(r"_(if|fi|ff|f|bi)$", n) and not re.match(r"ns_(has|hasnt|intersect|list|all|count|value|invert)", n)]
     rest = [n for n in names if n not in core]
-    return rot(core, seed, 28) + rot(rest, seed, 8)
+    return rot(core, seed, 24) + rot(rest, seed, 6)
 
 
 def sel_all(tier, seed, names):
@@ -250,6 +248,20 @@ def sel_prefix(*prefixes):
     return f
 
 
+CHEAP_DISPATCH = re.compile(r"c07_(bin_(and|or|greater|less)_|un_(count|not|value_of_list)_|call_un_count)")
+
+
+def sel_dispatch(quick_n):
+    """native_list C07 harnesses: only the dispatch instances that finish (measured, DESIGN E13);
+    the others are kept in the file for reference but never selected."""
+    def f(tier, seed, names):
+        mine = [n for n in names if CHEAP_DISPATCH.match(n)]
+        if tier == "thorough":
+            return mine
+        return rot(mine, seed, quick_n)
+    return f
+
+
 def sel_list(prefix, quick_n):
     def f(tier, seed, names):
         mine = [n for n in names if n.startswith(prefix)]
@@ -261,7 +273,7 @@ def sel_list(prefix, quick_n):
 
 PROPS = {
     "C03": {
-        "groups": {"list_ops": sel_list("c03_", 14), "native_list": sel_list("c03_", 2)},
+        "groups": {"list_ops": sel_list("c03_", 16)},
         "outside": ("RANDOM, shuffles, LIST_RANDOM (inside Story, RNG not encodable), order of globals/visit counts in saves, "
                     "compiler output byte-identity, cross-process/cross-profile equality of whole transcripts"),
         "assumptions": ["HashMap contract = map with unspecified iteration order; every order is reachable (std randomises per instance)"],
@@ -273,13 +285,13 @@ PROPS = {
         "assumptions": ["texts are ASCII (the function works on bytes; from_utf8_unchecked is sound for ASCII)"],
     },
     "C02": {
-        "groups": {"json_value": sel_prefix("rt_"), "count_flags": sel_all, "choice_flags": sel_all, "pushpop": sel_all},
+        "groups": {"json_value": sel_prefix("rt_int", "rt_bool"), "count_flags": sel_all, "choice_flags": sel_all, "pushpop": sel_all},
         "outside": ("flows, threads, call-stack pointers, choices, the variables map, lists, eval-stack order (serde_json::Map / "
                     "Story construction not encodable); the text serialisation of serde_json::Value (to_string / from_str) is trusted"),
         "assumptions": ["serde_json::Value::to_string followed by from_str is the identity on numbers and bools (library contract)"],
     },
     "C14": {
-        "groups": {"tokenizer": sel_all, "stream_leaf": sel_all},
+        "groups": {"tokenizer": sel_prefix("number_"), "stream_leaf": sel_prefix("leaf_int", "leaf_float", "leaf_bool")},
         "outside": ("object/array structure and key order in the streaming loader, whitespace layout, number text parsing, whole "
                     "documents, surrogate pairs, strings longer than the stated bounds"),
         "assumptions": ["RFC 8259 escape semantics is what serde_json implements (library contract)"],
@@ -291,19 +303,19 @@ PROPS = {
         "assumptions": ["RFC 8259 section 7 defines a valid JSON string body"],
     },
     "C15": {
-        "groups": {"json_value": sel_prefix("tok_", "arr_"), "pushpop": sel_all},
+        "groups": {"json_value": sel_prefix("tok_", "arr_", "hunt_"), "pushpop": sel_all},
         "outside": ("every object-shaped token (obj.get(k)...unwrap() sites): serde_json::Map is a BTreeMap CBMC does not get "
                     "through; whole-document parsing, nesting depth, reset-after-failed-load, the streaming loader's structure"),
         "assumptions": ["tokens are built directly as serde_json::Value (what serde_json::from_str hands the loader)"],
     },
     "C04": {
-        "groups": {"native_scalar": sel_c04_scalar, "list_ops": sel_list("c04_", 2), "native_list": sel_list("c04_", 12)},
+        "groups": {"native_scalar": sel_c04_scalar, "list_ops": sel_list("c04_", 2), "native_list": sel_list("c04_", 8)},
         "outside": ("RANDOM/shuffle seed arithmetic, evaluation-stack and divert-target unwraps, assignment of non-values, "
                     "reset-after-error: all inside Story methods that Kani cannot encode (DESIGN E5-E7)"),
         "assumptions": ["operands reach NativeFunctionCall::call as Rc<Value> of the stated types (what the evaluation stack holds)"],
     },
     "C07": {
-        "groups": {"native_scalar": sel_c07_scalar, "list_ops": sel_list("c07_", 16), "native_list": sel_list("c07_", 14)},
+        "groups": {"native_scalar": sel_c07_scalar, "list_ops": sel_list("c07_", 16), "native_list": sel_dispatch(5)},
         "outside": ("string concatenation/containment and printing of values (text building), POW and float % values (libm), "
                     "list commands executed inside Story (LIST_RANGE, list-from-int, LIST_RANDOM), expression parsing/emission"),
         "assumptions": ["reference evaluator in /verif/harness/native_scalar.rs states Ink's coercion and operator rules"],
